@@ -34,12 +34,16 @@ func (s *Service) putCommandHandler(conn redcon.Conn, cmd redcon.Command) {
 		return
 	}
 
+	// The condition (NX/XX) and the expiry (EX/PX/EXAT/PXAT) are independent
+	// options: "NX PX 100" is how a lock with a timeout arrives from another member.
 	var pc PutConfig
 	switch {
 	case putCmd.NX:
 		pc.HasNX = true
 	case putCmd.XX:
 		pc.HasXX = true
+	}
+	switch {
 	case putCmd.EX != 0:
 		pc.HasEX = true
 		pc.EX = time.Duration(putCmd.EX * float64(time.Second))
